@@ -520,8 +520,16 @@ impl Exec {
             let ks = block_sizes(&oti);
             // earlier work of this sender thread (see Setup::warm)
             for w in &setup.warm {
-                let wcfg = ObjectTransmissionInformation::new(w.k as u64, 1, 1, 1, 1);
+                // (the configuration constructor has its own limit check: a block encoder is handed
+                // the symbol size only, as in the crate's own benchmarks)
+                let wcfg = if w.k > 56403 { ObjectTransmissionInformation::new(0, 1, 0, 1, 1) } else { ObjectTransmissionInformation::new(w.k as u64, 1, 1, 1, 1) };
                 let wdata: Vec<u8> = (0..w.k).map(|i| (i * 7 + 1) as u8).collect();
+                if w.k > 56403 {
+                    // a request the library rejects (one symbol more than supported): the sender
+                    // thread survives the panic and carries on; nothing later may be affected
+                    let _ = guarded(|| SourceBlockEncoder::new(0, &wcfg, &wdata));
+                    continue;
+                }
                 let e = SourceBlockEncoder::new(0, &wcfg, &wdata);
                 let _ = e.repair_packets(w.s, w.n);
             }
@@ -622,7 +630,8 @@ impl Exec {
             Ok(x) => x,
             Err(p) => {
                 return Err(Fail {
-                    property: "C01",
+                    // attributed to the property whose check is running
+                    property: if oracles.c18 { "C18" } else if oracles.c08 { "C08" } else { "C01" },
                     oracle: format!("setup-panic:{}", panic_class(&p)),
                     detail: format!("building encoders/decoders panicked: {p}"),
                     at: 0,
